@@ -265,6 +265,7 @@ func shard(o *opts) {
 	seen := map[uint64]bool{}
 	simrt.ResetCounters()
 	simrt.SimPools = true
+	simrt.SingleThreaded = true
 	// watchdog: a case that runs longer than 5 minutes of wall time is tool trouble
 	// (exit 2 with the case named), never a verdict
 	var curCase atomic.Int64
@@ -584,6 +585,7 @@ func replay(o *opts) int {
 	o.prop, o.seed = v.Property, v.Seed
 	c := newCtx(o)
 	simrt.SimPools = true
+	simrt.SingleThreaded = true
 	got := ck.Replay(c, &v)
 	if got == nil {
 		fmt.Printf("replay: %s did not reproduce (clause %q holds on this tree)\n", o.file, v.Clause)
